@@ -46,14 +46,25 @@ fn strip_none(evs: &[Ev]) -> Vec<&Ev> {
     evs.iter().filter(|e| !matches!(e, Ev::None)).collect()
 }
 
+
+/// Offsets at which a temporary end of file is within the property's scope for this case: every
+/// tag boundary, as the unbuffered slice run sees them (so also boundaries inside buffered masters).
+fn pause_boundaries(rc: &ReadCase) -> Vec<usize> {
+    let mut unb = rc.clone();
+    unb.cfg.buffered.clear();
+    unb.cfg.eof_end = false;
+    let r = reference(&unb);
+    r.ok_prefix().iter().filter(|(t, o)| !t.is_end() && *o > 0).map(|(_, o)| *o).collect()
+}
+
 /// Compares one scheduled run with the reference.
 fn compare(rc: &ReadCase, refr: &RTrace, walked: Option<&Vec<crate::refdec::Walked>>, st: &mut Stats) -> Result<(), Fail> {
     if !rc.script.pauses.is_empty() {
-        // scope of the property: temporary EOF only with end-of-stream closing disabled, only at
-        // tag boundaries, and (our reading) outside buffered masters. Anything else is out of scope
-        // (this matters for shrunk cases, which must stay inside the property's quantifier).
-        let bounds = cases::item_boundaries(&refr.ok_prefix(), rc.input.len());
-        if rc.cfg.eof_end || !rc.cfg.buffered.is_empty() || rc.script.pauses.iter().any(|p| !bounds.contains(p)) || !matches!(rc.driver, Driver::Streaming { .. }) {
+        // scope of the property: temporary EOF only with end-of-stream closing disabled and only at
+        // tag boundaries. Anything else is out of scope (this matters for shrunk cases, which must
+        // stay inside the property's quantifier).
+        let bounds = pause_boundaries(rc);
+        if rc.cfg.eof_end || rc.script.pauses.iter().any(|p| !bounds.contains(p)) || !matches!(rc.driver, Driver::Streaming { .. }) {
             st.inc("out_of_scope");
             return Ok(());
         }
@@ -142,6 +153,9 @@ fn compare(rc: &ReadCase, refr: &RTrace, walked: Option<&Vec<crate::refdec::Walk
     }
     if !rc.cfg.eof_end && !rc.script.pauses.is_empty() {
         st.inc("paused_runs");
+        if !rc.cfg.buffered.is_empty() {
+            st.inc("probe_paused_runs_with_buffered_masters");
+        }
     }
     if a != b {
         let k = a.iter().zip(b.iter()).take_while(|(x, y)| x == y).count();
@@ -277,9 +291,9 @@ impl Check for C04 {
             } else if sub <= 3 {
                 // EOF pauses at tag boundaries with end-of-stream closing disabled
                 rc.cfg.eof_end = false;
-                rc.cfg.buffered.clear();
                 rc.driver = Driver::Streaming { extra: 0 };
-                for b in &bounds {
+                let pb = pause_boundaries(&rc);
+                for b in &pb {
                     if *b > 0 && *b < rc.input.len() && rng.chance(1, 3) {
                         for _ in 0..rng.range(1, 3) {
                             rc.script.pauses.push(*b);
@@ -302,14 +316,43 @@ impl Check for C04 {
             _ => "input_replayed",
         });
         if !c.rc.cfg.eof_end && refr.panic().is_none() {
-            // disabling end-of-stream closing may only remove closing Ends
-            let mut with_end = c.rc.clone();
-            with_end.cfg.eof_end = true;
-            let full = reference(&with_end);
-            let a = strip_none(&full.evs);
-            let b = strip_none(&refr.evs);
-            if full.panic().is_none() && (b.len() > a.len() || a[..b.len()] != b[..] || !a[b.len()..].iter().all(|e| matches!(e, Ev::Tag(t, _) if t.is_end()))) {
-                fail!("eof-closing-switch", "with end-of-stream closing disabled the slice run is not the default run minus closing Ends\n default:  {}\n disabled: {}", full.short(60), refr.short(60));
+            // Disabling end-of-stream closing may only remove closing Ends. First without buffering:
+            // the disabled run is the default run minus a suffix of End items. Those are the
+            // suppressed Ends; an End item carries its master's start offset, which identifies it.
+            let mut u_def = c.rc.clone();
+            u_def.cfg.eof_end = true;
+            u_def.cfg.buffered.clear();
+            let mut u_dis = u_def.clone();
+            u_dis.cfg.eof_end = false;
+            let (ud, ux) = (reference(&u_def), reference(&u_dis));
+            if ud.panic().is_none() && ux.panic().is_none() {
+                let a = strip_none(&ud.evs);
+                let b = strip_none(&ux.evs);
+                if b.len() > a.len() || a[..b.len()] != b[..] || !a[b.len()..].iter().all(|e| matches!(e, Ev::Tag(t, _) if t.is_end())) {
+                    fail!("eof-closing-switch", "with end-of-stream closing disabled the slice run is not the default run minus closing Ends\n default:  {}\n disabled: {}", ud.short(60), ux.short(60));
+                }
+                if !c.rc.cfg.buffered.is_empty() && ud.first_error().is_none() {
+                    // With buffered masters: a Full whose master only the end of input closes cannot be
+                    // completed (its End is one of the suppressed ones), so the run stops in front of it —
+                    // normally, without an error; everything else is as in the default run.
+                    let suppressed: Vec<(u64, usize)> = a[b.len()..].iter().filter_map(|e| if let Ev::Tag(t, o) = e { Some((t.id, *o)) } else { None }).collect();
+                    let mut b_def = c.rc.clone();
+                    b_def.cfg.eof_end = true;
+                    let bd = reference(&b_def);
+                    let mut want: Vec<Ev> = Vec::new();
+                    for e in strip_none(&bd.evs) {
+                        match e {
+                            Ev::Tag(t, o) if t.is_end() && suppressed.contains(&(t.id, *o)) => {}
+                            Ev::Tag(t, o) if t.is_full() && suppressed.contains(&(t.id, *o)) => break,
+                            other => want.push(other.clone()),
+                        }
+                    }
+                    let got: Vec<Ev> = strip_none(&refr.evs).into_iter().cloned().collect();
+                    if bd.panic().is_none() && got != want {
+                        fail!("eof-closing-switch-buffered", "with end-of-stream closing disabled and buffered masters {:x?} the slice run should be the default run minus the suppressed Ends {:x?} and minus Full masters that only the end of input closes\n default:  {}\n disabled: {}", c.rc.cfg.buffered, suppressed, bd.short(60), refr.short(60));
+                    }
+                    st.inc("probe_eof_switch_with_buffered_masters");
+                }
             }
         }
         let walked = if c.rc.input.len() <= 600 {
@@ -381,12 +424,12 @@ impl Check for C04 {
     fn assumptions(&self) -> Vec<&'static str> {
         vec![
             "the reference is the real iterator over the same bytes delivered in one read with default capacity; a defect that is independent of the schedule is not visible here (C03/C06/C12 look at those)",
-            "EOF pauses are placed only at tag boundaries as seen by the reference run, outside buffered masters",
+            "EOF pauses are placed at tag boundaries as seen by the unbuffered slice run, including boundaries inside buffered masters (the buffered iterator then returns None and carries on when more data arrives)",
             "hostile declared sizes are capped by a 1 MiB tag-size limit on non-valid inputs (memory is C17's subject)",
         ]
     }
 
     fn expected_probes(&self) -> Vec<&'static str> {
-        vec!["probe_partial_refill", "probe_buffer_grew", "fault_pauses_delivered", "fault_interrupted_delivered", "sweeps", "paused_runs"]
+        vec!["probe_partial_refill", "probe_buffer_grew", "fault_pauses_delivered", "fault_interrupted_delivered", "sweeps", "paused_runs", "probe_paused_runs_with_buffered_masters", "probe_eof_switch_with_buffered_masters"]
     }
 }
